@@ -246,6 +246,10 @@ func DecShareBatch(
 // VerifyDecShare checks that the decrypted share sG satisfies
 // log_{G}(X) == log_{sG}(sX). Note that X = xG and sX = s(xG) = x(sG).
 func VerifyDecShare(suite Suite, G, X kyber.Point, encShare *PubVerShare, decShare *PubVerShare) error {
+	// the index is what recovery interpolates with: it must be the one of the encrypted share
+	if decShare.S.I != encShare.S.I {
+		return ErrDecVerification
+	}
 	// Compute challenge for the decShare
 	h := suite.Hash()
 	var err error
